@@ -160,7 +160,7 @@ struct Runner : RunnerBase {
         P::methods.clear();
         for (auto c : classes) c->live = false;
         for (auto m : methods) { m->live = false; for (auto d : m->defs) { d->live = false; d->info.method = nullptr; } }
-        classes.clear(); methods.clear(); id_arrays.clear();
+        classes.clear(); methods.clear(); id_arrays.clear(); kept_vptrs.clear();
         std::fill(slot_used.begin(), slot_used.end(), false);
     }
 
@@ -262,6 +262,7 @@ struct Runner : RunnerBase {
     }
 
     std::unique_ptr<compiler<P>> comp;
+    std::map<int, virtual_ptr<Obj, P>*> kept_vptrs;
 
     void update(std::ostream& os, const std::string& pfx) override {
         comp.reset(new compiler<P>());
@@ -396,6 +397,30 @@ struct Runner : RunnerBase {
                 }
                 std::size_t k = 0; while (k < ar && ++idx[k] == dom[k].size()) { idx[k] = 0; ++k; } if (k == ar) break;
             }
+        }
+        // virtual_ptr<Obj, P> made from a base reference to an object of every live id: its v-table pointer must be the
+        // class's static v-table pointer (through indirect_vptrs for indirect policies); pointers made at the previous
+        // observation and kept across the update must still be right for indirect policies (for direct ones they are
+        // only valid until the next update: not dereferenced)
+        {
+            std::map<int, virtual_ptr<Obj, P>*> still;
+            for (int n : nums) {
+                auto o = new Obj(g_real_id[n]);       // kept alive with the pointer
+                os << pfx << "vptr " << n << " =";
+                try {
+                    auto vp = new virtual_ptr<Obj, P>(*o);
+                    os << (vp->_vptr() == svp[rep(n)] ? " ok" : " WRONG") << "\n";
+                    still[n] = vp;
+                } catch (Caught& c) { os << " error " << c.what << "\n"; }
+                catch (unknown_class_error& e) { os << " threw unknown_class " << num_of(e.type) << "\n"; }
+            }
+            if constexpr (P::template has_facet<policy::indirect_vptr>) {
+                for (auto& [n, vp] : kept_vptrs) {
+                    if (std::find(nums.begin(), nums.end(), n) == nums.end()) continue;    // its class was unregistered
+                    os << pfx << "keptvptr " << n << " = " << (vp->_vptr() == svp[rep(n)] ? "ok" : "WRONG") << "\n";
+                }
+            }
+            kept_vptrs = still;
         }
         // published v-table pointers: every id of every live class
         for (int n : nums) {
